@@ -15,7 +15,8 @@
  *
  * Plan grammar (comma separated, all counters 1-based, all limits in bytes):
  *   shortw=N shortr=N      every tracked write/read transfers at most N bytes      (legal, must be tolerated)
- *   eintr=K                every K-th tracked read/write call fails with EINTR first (legal, retryable)
+ *   eintr=K                every (K+1)-th tracked read/write call fails with EINTR (never twice in a row: a retry
+ *                          always makes progress, as on a real system)
  *   eio_w=J eio_r=J eio_seek=J eio_close=J eio_fsync=J   the J-th tracked call of that kind fails with EIO
  *   open_err=J:E           the J-th tracked open fails with errno E (number)
  *   enospc=N  efbig=N      after N bytes written in total: short write up to the limit, then ENOSPC / EFBIG
@@ -104,6 +105,9 @@ struct plan {
 };
 static struct plan g_plan;
 static uint64_t g_rw_calls; /* for eintr */
+/* operation-relative call counters: reset whenever a plan is installed, so that 'the j-th write'
+ * means the j-th write of the operation the plan was installed for */
+static uint64_t p_open, p_read, p_write, p_seek, p_close, p_fsync, p_bytes_w;
 
 static int g_log_fd = -1;
 static char *g_log_buf;
@@ -152,6 +156,7 @@ static long plan_get2(const char *s, const char *key, long dflt) {
 static void parse_plan(const char *s) {
     memset(&g_plan, 0, sizeof g_plan);
     g_rw_calls = 0;
+    p_open = p_read = p_write = p_seek = p_close = p_fsync = p_bytes_w = 0;
     if (!s || !*s) return;
     g_plan.on = 1;
     g_plan.shortw = plan_get(s, "shortw", 0);
@@ -331,7 +336,8 @@ static int do_open(int dirfd, const char *path, int flags, mode_t mode) {
     int tracked = path_tracked(dirfd, path);
     if (tracked) {
         pthread_mutex_lock(&g_mu);
-        uint64_t j = ++g_cnt[C_OPEN];
+        ++g_cnt[C_OPEN];
+        uint64_t j = ++p_open;
         int fail = g_plan.on && g_plan.open_err_j && (long)j == g_plan.open_err_j;
         long e = g_plan.open_err_e;
         if (fail) g_cnt[F_OPEN_ERR]++;
@@ -344,7 +350,7 @@ static int do_open(int dirfd, const char *path, int flags, mode_t mode) {
     }
     int fd = (int)syscall(SYS_openat, dirfd, path, flags, mode);
     if (fd >= 0 && fd < MAXFD) g_tracked[fd] = (unsigned char)tracked;
-    if (tracked) log_line("open", fd, flags);
+    if (tracked) log_line("open", fd >= 0 ? 0 : -1, flags); /* no fd numbers: they differ between processes */
     return fd;
 }
 
@@ -369,7 +375,8 @@ ssize_t write(int fd, const void *buf, size_t len) {
     resolve();
     if (!is_tracked(fd)) return real_write(fd, buf, len);
     pthread_mutex_lock(&g_mu);
-    uint64_t j = ++g_cnt[C_WRITE];
+    ++g_cnt[C_WRITE];
+    uint64_t j = ++p_write;
     uint64_t rw = ++g_rw_calls;
     size_t n = len;
     int err = 0, kill = 0;
@@ -378,7 +385,7 @@ ssize_t write(int fd, const void *buf, size_t len) {
             kill = 1;
             n = (size_t)g_plan.kill_f < len ? (size_t)g_plan.kill_f : len;
             g_cnt[F_KILL]++;
-        } else if (g_plan.eintr && rw % (uint64_t)g_plan.eintr == 0) {
+        } else if (g_plan.eintr && rw % ((uint64_t)g_plan.eintr + 1) == 0) {
             err = EINTR;
             g_cnt[F_EINTR]++;
         } else if (g_plan.eio_w && (long)j == g_plan.eio_w) {
@@ -394,7 +401,7 @@ ssize_t write(int fd, const void *buf, size_t len) {
             if (g_plan.enospc >= 0) { lim = g_plan.enospc; lim_err = ENOSPC; lim_cnt = F_ENOSPC; }
             if (g_plan.efbig >= 0 && (lim < 0 || g_plan.efbig < lim)) { lim = g_plan.efbig; lim_err = EFBIG; lim_cnt = F_EFBIG; }
             if (lim >= 0 && len > 0) {
-                uint64_t done = g_cnt[C_BYTES_W];
+                uint64_t done = p_bytes_w;
                 if (done >= (uint64_t)lim) {
                     err = lim_err;
                     g_cnt[lim_cnt]++;
@@ -415,6 +422,7 @@ ssize_t write(int fd, const void *buf, size_t len) {
     if (r > 0) {
         pthread_mutex_lock(&g_mu);
         g_cnt[C_BYTES_W] += (uint64_t)r;
+        p_bytes_w += (uint64_t)r;
         pthread_mutex_unlock(&g_mu);
     }
     log_line(kill ? "write_kill" : "write", (long)len, (long)r);
@@ -429,12 +437,13 @@ ssize_t read(int fd, void *buf, size_t len) {
     resolve();
     if (!is_tracked(fd)) return real_read(fd, buf, len);
     pthread_mutex_lock(&g_mu);
-    uint64_t j = ++g_cnt[C_READ];
+    ++g_cnt[C_READ];
+    uint64_t j = ++p_read;
     uint64_t rw = ++g_rw_calls;
     size_t n = len;
     int err = 0;
     if (g_plan.on) {
-        if (g_plan.eintr && rw % (uint64_t)g_plan.eintr == 0) {
+        if (g_plan.eintr && rw % ((uint64_t)g_plan.eintr + 1) == 0) {
             err = EINTR;
             g_cnt[F_EINTR]++;
         } else if (g_plan.eio_r && (long)j == g_plan.eio_r) {
@@ -463,7 +472,8 @@ ssize_t read(int fd, void *buf, size_t len) {
 
 static int seek_fault(void) {
     pthread_mutex_lock(&g_mu);
-    uint64_t j = ++g_cnt[C_SEEK];
+    ++g_cnt[C_SEEK];
+    uint64_t j = ++p_seek;
     int fail = g_plan.on && g_plan.eio_seek && (long)j == g_plan.eio_seek;
     if (fail) g_cnt[F_EIO_SEEK]++;
     pthread_mutex_unlock(&g_mu);
@@ -503,12 +513,13 @@ int close(int fd) {
     if (is_tracked(fd)) {
         g_tracked[fd] = 0;
         pthread_mutex_lock(&g_mu);
-        uint64_t j = ++g_cnt[C_CLOSE];
+        ++g_cnt[C_CLOSE];
+        uint64_t j = ++p_close;
         int fail = g_plan.on && g_plan.eio_close && (long)j == g_plan.eio_close;
         if (fail) g_cnt[F_EIO_CLOSE]++;
         pthread_mutex_unlock(&g_mu);
         int r = real_close(fd);
-        log_line(fail ? "close_err" : "close", fd, r);
+        log_line(fail ? "close_err" : "close", 0, r);
         if (fail) {
             errno = EIO;
             return -1;
@@ -522,11 +533,12 @@ int fsync(int fd) {
     resolve();
     if (is_tracked(fd)) {
         pthread_mutex_lock(&g_mu);
-        uint64_t j = ++g_cnt[C_FSYNC];
+        ++g_cnt[C_FSYNC];
+        uint64_t j = ++p_fsync;
         int fail = g_plan.on && g_plan.eio_fsync && (long)j == g_plan.eio_fsync;
         if (fail) g_cnt[F_EIO_FSYNC]++;
         pthread_mutex_unlock(&g_mu);
-        log_line(fail ? "fsync_err" : "fsync", fd, 0);
+        log_line(fail ? "fsync_err" : "fsync", 0, 0);
         if (fail) {
             errno = EIO;
             return -1;
